@@ -158,6 +158,10 @@ pub fn draw_spec(rng: &mut Rng, roots: &[String], other_files: &[String], known_
     if rng.chance(1, 3) {
         spec.color = Some(rng.pick(&["on", "off", "on", "off", "x", ""]).to_string());
     }
+    if spec.groups.len() > 1 && rng.chance(1, 3) {
+        // the input files named in a later group than some output group
+        spec.root_group = rng.range(1, spec.groups.len() - 1);
+    }
     spec.help = rng.chance(1, 40);
     spec.version = rng.chance(1, 40);
     spec
